@@ -611,6 +611,9 @@ static void caseC14(uint64_t idx, vh::Rng& g)
 	}
 	kind += "/map-mode-" + vh::str(mode);
 	if (!a.rules.empty() && ns >= 2) { R->nontrivial(vh::fnv(canon(al) + canon(a) + vh::str(mode) + vh::str(m.begin()->second) + vh::str(m.rbegin()->second))); if (R->wantSample()) R->sample(kind + "\n" + caseText(al, a)); }
+	// the cross-checks of the oracle itself run the reference model, whose cost is |reach|^rank: not on derived subjects
+	// with many states over an alphabet with a symbol of rank >= 3 (a 12-state case took 42 CPU seconds there)
+	bool heavyRM = false; { int maxr = 0; for (int r : al.rank) maxr = std::max(maxr, r); heavyRM = maxr >= 3 && states.size() > 7; if (heavyRM) R->count("oracle-cross-check-skipped(heavy)"); }
 	RTA img; for (auto& r : a.rules) { RRule x; x.sym = r.sym; x.par = m[r.par]; for (St c : r.ch) x.ch.push_back(m[c]); img.rules.insert(x); }
 	for (St f : a.fin) img.fin.insert(m[f]);
 	if (g.chance(1, 3) && m.size() >= 2)
@@ -628,14 +631,17 @@ static void caseC14(uint64_t idx, vh::Rng& g)
 		  if (rb != img) R->violation("C14/reindex-functor/image", "result is not the image under the state map");
 		  if (injective && (rb.rules.size() != a.rules.size() || rb.states().size() != states.size())) R->violation("C14/reindex-functor/counts", "");
 		  // cross-check of the oracle itself: L(A) ⊆ L(image)
-		  if (rm::refIncl(a, img, al) == 0) R->violation("C14/oracle/merging-loses-language", "reference model: image does not contain the original language"); }
+		  if (!heavyRM && rm::refIncl(a, img, al) == 0) R->violation("C14/oracle/merging-loses-language", "reference model: image does not contain the original language"); }
 		{ R->phase("ReindexStates(functor,no finals)"); MapF f(m); Aut b = A.ReindexStates(f, false); RTA rb = readExpl(b, &ca); RTA e = img; e.fin.clear();
 		  if (rb != e) R->violation("C14/reindex-functor-nofinal/image", ""); }
 		{ R->phase("CollapseStates"); AutBase::StateToStateMap cm(m.begin(), m.end()); Aut b = A.CollapseStates(cm); RTA rb = readExpl(b, &ca);
 		  if (rb != img) R->violation("C14/collapse/image", "result is not the image under the state map"); }
 		{	// weak translator: fresh numbering; result must be the image under the map it reports
 			R->phase("ReindexStates(weak)");
-			AutBase::StateToStateMap wm; size_t c = g.chance(1, 2) ? 0 : 100; AutBase::StateToStateTranslWeak tr(wm, [&c](const size_t&) { return c++; });
+			// the allocation function is the caller's: a counter (fresh numbers) or, in a third of the cases, a function
+			// that gives several states the same number (a merging map delivered through the translator; seeded change m101)
+			bool mergeAlloc = g.chance(1, 3); size_t modk = static_cast<size_t>(g.range(1, std::max(1, ns / 2))); if (mergeAlloc) R->count("weak-translator-merging-allocator");
+			AutBase::StateToStateMap wm; size_t c = g.chance(1, 2) ? 0 : 100; AutBase::StateToStateTranslWeak tr(wm, [&c, mergeAlloc, modk](const size_t& q) { return mergeAlloc ? 700 + (q % modk) : c++; });
 			Aut b = A.ReindexStates(tr); RTA rb = readExpl(b, &ca); RTA im2; bool ok = true;
 			for (auto& r : a.rules) { RRule x; x.sym = r.sym; if (!wm.count(r.par)) { ok = false; break; } x.par = wm[r.par]; for (St cc : r.ch) { if (!wm.count(cc)) { ok = false; break; } x.ch.push_back(wm[cc]); } im2.rules.insert(x); }
 			for (St f : a.fin) { if (!wm.count(f)) { ok = false; break; } im2.fin.insert(wm[f]); }
@@ -643,9 +649,10 @@ static void caseC14(uint64_t idx, vh::Rng& g)
 			else if (rb != im2) R->violation("C14/reindex-weak/image", "result is not the image under the reported translation");
 			std::set<St> keys, vals; for (auto& p : wm) { keys.insert(p.first); vals.insert(p.second); }
 			if (keys != states) R->violation("C14/reindex-weak/translator-keys", "translator does not contain exactly the states of the source");
-			if (vals.size() != wm.size()) R->violation("C14/reindex-weak/not-injective", "");
-			if (ok && (rb.rules.size() != a.rules.size() || rb.states().size() != states.size())) R->violation("C14/reindex-weak/counts", "");
-			if (ok && rm::cmpLang(a, im2, al) > 0) R->violation("C14/oracle/injective-changes-language", "reference model: injective image has another language");
+			if (!mergeAlloc && vals.size() != wm.size()) R->violation("C14/reindex-weak/not-injective", "");
+			if (!mergeAlloc && ok && (rb.rules.size() != a.rules.size() || rb.states().size() != states.size())) R->violation("C14/reindex-weak/counts", "");
+			if (!mergeAlloc && ok && !heavyRM && rm::cmpLang(a, im2, al) > 0) R->violation("C14/oracle/injective-changes-language", "reference model: injective image has another language");
+			if (mergeAlloc && ok) for (auto& p2 : wm) if (p2.second != 700 + (p2.first % modk)) { R->violation("C14/reindex-weak/translator-values", "the translator does not hold what the allocation function returned"); break; }
 		}
 		{	// one weak translator (and its counter) used for a second automaton that shares some state numbers with the
 			// first: what it learnt for A stays, B's states that A also has keep A's images, the others get fresh ones, and
